@@ -8,6 +8,7 @@ import (
 	"math/big"
 	"math/rand"
 	"os"
+	"strings"
 	"time"
 
 	sdkmath "cosmossdk.io/math"
@@ -24,7 +25,6 @@ import (
 	"github.com/cosmos/cosmos-sdk/x/feegrant"
 	govv1 "github.com/cosmos/cosmos-sdk/x/gov/types/v1"
 	govv1beta1 "github.com/cosmos/cosmos-sdk/x/gov/types/v1beta1"
-	paramproposal "github.com/cosmos/cosmos-sdk/x/params/types/proposal"
 	stakingtypes "github.com/cosmos/cosmos-sdk/x/staking/types"
 	"github.com/ethereum/go-ethereum/common"
 
@@ -32,6 +32,7 @@ import (
 	haqqtypes "github.com/haqq-network/haqq/types"
 	coinomicstypes "github.com/haqq-network/haqq/x/coinomics/types"
 	erc20types "github.com/haqq-network/haqq/x/erc20/types"
+	evmtypes "github.com/haqq-network/haqq/x/evm/types"
 	feemarkettypes "github.com/haqq-network/haqq/x/feemarket/types"
 	lvtypes "github.com/haqq-network/haqq/x/liquidvesting/types"
 	ucdaotypes "github.com/haqq-network/haqq/x/ucdao/types"
@@ -123,18 +124,26 @@ type histGen struct {
 	tried  map[string]int
 	constr map[string]int // order-sensitive constructs observed
 	// live objects
-	vestAccs   []vn.Account // clawback vesting accounts created (their keys are known)
-	vestFunder map[string]vn.Account
-	liquid     []string // liquid denoms
-	contracts  []common.Address
-	forwarders map[string]common.Address // precompile forwarders by name
-	proposals  []uint64
-	extraVals  []vn.Account
-	fresh      int
-	jailed     map[int]int64 // validator index -> height it went absent
-	usedInBlk  map[string]bool
-	failLog    map[string]string
-	hook       func(phase string) // called at "pre-endblock", "post-endblock", "post-commit"
+	vestAccs        []vn.Account // clawback vesting accounts created (their keys are known)
+	vestFunder      map[string]vn.Account
+	liquid          []string // liquid denoms
+	contracts       []common.Address
+	forwarders      map[string]common.Address // precompile forwarders by name
+	proposals       []uint64
+	extraVals       []vn.Account
+	fresh           int
+	jailed          map[int]int64 // validator index -> height it went absent
+	usedInBlk       map[string]bool
+	failLog         map[string]string
+	failReasons     map[string]int
+	boostRewardFees bool
+	poor            []vn.Account // accounts that staked nearly everything and pay fees out of rewards
+	// governance campaign: a param-changing proposal that all validators vote for
+	campID    uint64
+	campVoted map[int]bool
+	campKind  string
+	special   map[int64]string   // height -> what special thing happened in that block
+	hook      func(phase string) // called at "pre-endblock", "post-endblock", "post-commit"
 }
 
 func newHistGen(h histCfg, rng *rand.Rand) *histGen {
@@ -162,6 +171,9 @@ func (g *histGen) acct() vn.Account {
 
 func (g *histGen) cosmos(fam string, signer vn.Account, msgs ...sdk.Msg) bool {
 	gas := uint64(3_000_000)
+	if strings.HasPrefix(fam, "liquidvesting") {
+		gas = 12_000_000 // liquidation deploys an ERC20 contract
+	}
 	if g.h.MaxGas > 0 && int64(gas) > g.h.MaxGas/2 {
 		gas = uint64(g.h.MaxGas / 2)
 	}
@@ -186,6 +198,17 @@ func (g *histGen) cosmos(fam string, signer vn.Account, msgs ...sdk.Msg) bool {
 	if _, seen := g.failLog[fam]; !seen {
 		g.failLog[fam] = res.Log
 	}
+	if g.failReasons == nil {
+		g.failReasons = map[string]int{}
+	}
+	lg := res.Log
+	if i := strings.LastIndex(lg, "haqq1"); i >= 0 && len(lg) > i+45 {
+		lg = lg[i+45:]
+	}
+	if len(lg) > 70 {
+		lg = lg[:70]
+	}
+	g.failReasons[fam+": "+lg]++
 	return false
 }
 
@@ -259,10 +282,15 @@ func (g *histGen) block() {
 			g.tx()
 		}()
 	}
+	func() {
+		defer func() { _ = recover() }()
+		g.campaign()
+	}()
 	if g.hook != nil {
 		g.hook("pre-endblock")
 	}
 	n.EndBlock()
+	g.afterEndBlock()
 	if g.hook != nil {
 		g.hook("post-endblock")
 	}
@@ -272,6 +300,111 @@ func (g *histGen) block() {
 	}
 }
 
+// campaign drives one param-changing governance proposal to success.
+func (g *histGen) campaign() {
+	n, rng := g.n, g.rng
+	if g.special == nil {
+		g.special = map[int64]string{}
+	}
+	if g.campID == 0 {
+		if rng.Intn(12) > 0 {
+			return
+		}
+		a := g.acct()
+		authority := vn.ModuleAddr("gov").String()
+		var msg sdk.Msg
+		kind := ""
+		switch rng.Intn(7) {
+		case 0:
+			p := n.App.EvmKeeper.GetParams(n.Ctx())
+			p.AllowUnprotectedTxs = !p.AllowUnprotectedTxs
+			msg, kind = &evmtypes.MsgUpdateParams{Authority: authority, Params: p}, "evm.allow-unprotected-toggle"
+		case 1:
+			p := n.App.EvmKeeper.GetParams(n.Ctx())
+			if len(p.ExtraEIPs) > 0 {
+				p.ExtraEIPs = nil
+			} else {
+				p.ExtraEIPs = []int64{3855}
+			}
+			msg, kind = &evmtypes.MsgUpdateParams{Authority: authority, Params: p}, "evm.extra-eips-toggle"
+		case 2:
+			p := n.App.EvmKeeper.GetParams(n.Ctx())
+			var keep []string
+			removed := false
+			for _, x := range p.ActivePrecompiles {
+				if !removed && (x == addrDist.Hex() || x == addrBank.Hex()) {
+					removed = true
+					continue
+				}
+				keep = append(keep, x)
+			}
+			if !removed {
+				keep = evmtypes.AvailableEVMExtensions
+			}
+			p.ActivePrecompiles = keep
+			msg, kind = &evmtypes.MsgUpdateParams{Authority: authority, Params: p}, "evm.active-precompiles-change"
+		case 3:
+			p := n.App.EvmKeeper.GetParams(n.Ctx())
+			far := sdkmath.NewInt(n.Height + 1_000_000)
+			if p.ChainConfig.LondonBlock != nil && p.ChainConfig.LondonBlock.IsZero() {
+				p.ChainConfig.LondonBlock, p.ChainConfig.ArrowGlacierBlock, p.ChainConfig.GrayGlacierBlock, p.ChainConfig.MergeNetsplitBlock, p.ChainConfig.ShanghaiBlock, p.ChainConfig.CancunBlock = &far, &far, &far, &far, &far, &far
+			} else {
+				z := sdkmath.ZeroInt()
+				p.ChainConfig.LondonBlock, p.ChainConfig.ArrowGlacierBlock, p.ChainConfig.GrayGlacierBlock, p.ChainConfig.MergeNetsplitBlock, p.ChainConfig.ShanghaiBlock, p.ChainConfig.CancunBlock = &z, &z, &z, &z, &z, &z
+			}
+			msg, kind = &evmtypes.MsgUpdateParams{Authority: authority, Params: p}, "evm.chain-config-forks"
+		case 4:
+			p := n.App.EvmKeeper.GetParams(n.Ctx())
+			p.EnableCreate = !p.EnableCreate
+			msg, kind = &evmtypes.MsgUpdateParams{Authority: authority, Params: p}, "evm.enable-create-toggle"
+		case 5:
+			p := n.App.FeeMarketKeeper.GetParams(n.Ctx())
+			p.MinGasMultiplier = sdk.NewDecWithPrec(int64(rng.Intn(10)), 1)
+			p.MinGasPrice = sdk.NewDec(int64(rng.Intn(3)) * 1_000_000)
+			msg, kind = &feemarkettypes.MsgUpdateParams{Authority: authority, Params: p}, "feemarket.params"
+		default:
+			p := n.App.FeeMarketKeeper.GetParams(n.Ctx())
+			p.BaseFeeChangeDenominator = uint32(2 + rng.Intn(60))
+			p.ElasticityMultiplier = uint32(1 + rng.Intn(4))
+			msg, kind = &feemarkettypes.MsgUpdateParams{Authority: authority, Params: p}, "feemarket.elasticity"
+		}
+		sp, err := govv1.NewMsgSubmitProposal([]sdk.Msg{msg}, sdk.NewCoins(sdk.NewCoin(vn.Denom, sdkmath.NewIntWithDecimal(10, 18))), a.Addr.String(), "", kind, "verif")
+		if err == nil && g.cosmos("gov.submit-params:"+kind, a, sp) {
+			id, _ := n.App.GovKeeper.GetProposalID(n.Ctx())
+			g.campID, g.campVoted, g.campKind = id-1, map[int]bool{}, kind
+		}
+		return
+	}
+	// vote with every validator operator, one or two per block
+	for v := range n.Vals {
+		if !g.campVoted[v] && !g.usedInBlk[n.Vals[v].Oper.Addr.String()] {
+			g.usedInBlk[n.Vals[v].Oper.Addr.String()] = true
+			if g.cosmos("gov.vote-yes", n.Vals[v].Oper, govv1.NewMsgVote(n.Vals[v].Oper.Addr, g.campID, govv1.OptionYes, "")) {
+				g.campVoted[v] = true
+			}
+			if rng.Intn(2) == 0 {
+				break
+			}
+		}
+	}
+}
+
+// afterEndBlock notices the block in which the campaign's proposal was executed.
+func (g *histGen) afterEndBlock() {
+	if g.campID == 0 {
+		return
+	}
+	p, found := g.n.App.GovKeeper.GetProposal(g.n.Ctx(), g.campID)
+	if !found || p.Status == govv1.StatusVotingPeriod || p.Status == govv1.StatusDepositPeriod {
+		return
+	}
+	if p.Status == govv1.StatusPassed {
+		g.special[g.n.Height] = "param-change:" + g.campKind
+		g.constr["governance-param-change:"+g.campKind]++
+	}
+	g.campID = 0
+}
+
 func (g *histGen) tx() {
 	n, rng := g.n, g.rng
 	a := g.acct()
@@ -279,7 +412,11 @@ func (g *histGen) tx() {
 	val := n.Vals[rng.Intn(len(n.Vals))]
 	unit := sdkmath.NewInt(1_000_000_000_000_000)
 	amt := func(k int) sdk.Coin { return sdk.NewCoin(vn.Denom, unit.MulRaw(int64(rng.Intn(k)+1))) }
-	switch f := rng.Intn(40); {
+	f := rng.Intn(40)
+	if g.boostRewardFees && rng.Intn(5) == 0 {
+		f = 28
+	}
+	switch {
 	case f < 3:
 		g.cosmos("bank.send", a, banktypes.NewMsgSend(a.Addr, b.Addr, sdk.NewCoins(amt(100))))
 	case f == 3:
@@ -335,10 +472,7 @@ func (g *histGen) tx() {
 		dep := sdk.NewCoins(sdk.NewCoin(vn.Denom, sdkmath.NewIntWithDecimal(int64(rng.Intn(12)+1), 18)))
 		var content govv1beta1.Content = govv1beta1.NewTextProposal("t", "d")
 		fam := "gov.submit-text"
-		if rng.Intn(3) == 0 {
-			content = paramproposal.NewParameterChangeProposal("p", "d", []paramproposal.ParamChange{{Subspace: "staking", Key: "MaxEntries", Value: fmt.Sprintf("%d", 5+rng.Intn(5))}})
-			fam = "gov.submit-param-change"
-		} else if rng.Intn(4) == 0 {
+		if rng.Intn(4) == 0 {
 			d := fmt.Sprintf("ucoin%d", rng.Intn(1000))
 			content = erc20types.NewRegisterCoinProposal("r", "d", banktypes.Metadata{Description: "x", Base: d, Display: d[1:], Name: d, Symbol: "X",
 				DenomUnits: []*banktypes.DenomUnit{{Denom: d, Exponent: 0}, {Denom: d[1:], Exponent: 6}}})
@@ -388,7 +522,7 @@ func (g *histGen) tx() {
 		switch {
 		case len(g.vestAccs) < 3:
 			v := g.freshAcc()
-			lock := sdkvesting.Periods{{Length: int64(rng.Intn(200) + 20), Amount: sdk.NewCoins(amt(4000))}, {Length: int64(rng.Intn(4000) + 20), Amount: sdk.NewCoins(amt(4000))}}
+			lock := sdkvesting.Periods{{Length: int64(rng.Intn(200) + 20), Amount: sdk.NewCoins(amt(4000))}, {Length: int64(rng.Intn(4000)+20) + int64(rng.Intn(2))*20_000_000, Amount: sdk.NewCoins(amt(4000))}}
 			vest := sdkvesting.Periods{{Length: int64(rng.Intn(30) + 1), Amount: lock.TotalAmount()}}
 			if g.cosmos("vesting.create", a, vestingtypes.NewMsgCreateClawbackVestingAccount(a.Addr, v.Addr, n.Time.Add(-time.Duration(rng.Intn(50))*time.Second).UTC(), lock, vest, false)) {
 				g.vestAccs = append(g.vestAccs, v)
@@ -435,7 +569,14 @@ func (g *histGen) tx() {
 			v := g.vestAccs[rng.Intn(len(g.vestAccs))]
 			if !g.usedInBlk[v.Addr.String()] {
 				g.usedInBlk[v.Addr.String()] = true
-				g.cosmos("liquidvesting.redeem", v, lvtypes.NewMsgRedeem(v.Addr, b.Addr, sdk.NewCoin(d, unit.MulRaw(int64(rng.Intn(20)+1)))))
+				to := b.Addr
+				fam := "liquidvesting.redeem"
+				if len(g.contracts) > 0 && rng.Intn(3) == 0 {
+					to, fam = sdk.AccAddress(g.contracts[rng.Intn(len(g.contracts))].Bytes()), "liquidvesting.redeem-into-contract"
+				}
+				if g.cosmos(fam, v, lvtypes.NewMsgRedeem(v.Addr, to, sdk.NewCoin(d, unit.MulRaw(int64(rng.Intn(20)+1))))) && fam != "liquidvesting.redeem" {
+					g.constr["vesting-account-that-is-a-contract"]++
+				}
 			}
 		}
 	case f == 25 || f == 26: // DAO
@@ -461,7 +602,7 @@ func (g *histGen) tx() {
 				}
 			}
 		}
-	case f < 32: // EVM: deploy and call generated programs
+	case f < 32 && f != 28: // EVM: deploy and call generated programs
 		if len(g.contracts) < 6 || rng.Intn(4) == 0 {
 			nf := 0
 			p := genProg(rng, 3, []common.Address{b.Eth, n.Accounts[0].Eth}, func() common.Address { nf++; return g.freshAcc().Eth })
@@ -521,6 +662,53 @@ func (g *histGen) tx() {
 				g.usedInBlk[n.Vals[v].Oper.Addr.String()] = true
 				g.cosmos("slashing.unjail", n.Vals[v].Oper, &slashingMsgUnjail{ValidatorAddr: n.Vals[v].ValAddr.String()})
 				break
+			}
+		}
+	case f == 38: // a vesting schedule applied to the address a contract is about to be created at
+		d := g.acct()
+		target := vn.CreateAddress(d.Eth, n.EthNonce(d.Eth))
+		lock := sdkvesting.Periods{{Length: int64(rng.Intn(5000) + 100), Amount: sdk.NewCoins(amt(10))}}
+		if g.cosmos("vesting.convert-future-contract-address", a, vestingtypes.NewMsgConvertIntoVestingAccount(a.Addr, sdk.AccAddress(target.Bytes()), n.Time.UTC(), lock, lock, false, false, nil)) {
+			p := genProg(rng, 1, []common.Address{b.Eth}, func() common.Address { return g.freshAcc().Eth })
+			g.tried["evm.deploy"]++
+			if _, err := deployProg(n, d, p); err == nil {
+				g.ok["evm.deploy"]++
+				g.contracts = append(g.contracts, p.addr)
+				g.constr["vesting-account-that-is-a-contract"]++
+			}
+		}
+	case f == 39: // a program using PUSH0 (EIP-3855, switched by the extra-EIPs parameter)
+		init := evmasm.InitCode([]evmasm.Step{evmasm.Raw{Code: []byte{0x5f, 0x50}}, evmasm.SStore{Slot: 1, Val: 1}}, []evmasm.Step{evmasm.Stop{}})
+		g.eth("evm.push0", a, nil, 0, init, 400000)
+	case f == 28: // fees paid out of unclaimed staking rewards (several delegations)
+		if len(g.poor) < 2 {
+			p := g.freshAcc()
+			feeAmt := sdkmath.NewIntFromBigInt(new(big.Int).Mul(g.price(), big.NewInt(3_000_000)))
+			fund := sdkmath.NewIntWithDecimal(30, 18).Add(feeAmt.MulRaw(2))
+			if g.cosmos("bank.send", a, banktypes.NewMsgSend(a.Addr, p.Addr, sdk.NewCoins(sdk.NewCoin(vn.Denom, fund)))) {
+				var msgs []sdk.Msg
+				for v := 0; v < 3 && v < len(n.Vals); v++ {
+					msgs = append(msgs, stakingtypes.NewMsgDelegate(p.Addr, n.Vals[v].ValAddr, sdk.NewCoin(vn.Denom, sdkmath.NewIntWithDecimal(10, 18))))
+				}
+				if g.cosmos("staking.delegate-all(poor)", p, msgs...) {
+					g.poor = append(g.poor, p)
+				}
+			}
+		} else {
+			p := g.poor[rng.Intn(len(g.poor))]
+			if !g.usedInBlk[p.Addr.String()] {
+				g.usedInBlk[p.Addr.String()] = true
+				liquid := n.Balance(p.Addr, vn.Denom)
+				if rng.Intn(2) == 0 {
+					if g.cosmos("fee-from-staking-rewards(cosmos)", p, banktypes.NewMsgSend(p.Addr, b.Addr, vn.Coins(1))) && liquid.LT(sdkmath.NewIntFromBigInt(new(big.Int).Mul(g.price(), big.NewInt(3_000_000)))) {
+						g.constr["fee-paid-from-staking-rewards"]++
+					}
+				} else {
+					to := b.Eth
+					if ok, _ := g.eth("fee-from-staking-rewards(eth)", p, &to, 0, nil, 21000+uint64(rng.Intn(1_000_000))); ok {
+						g.constr["fee-paid-from-staking-rewards"]++
+					}
+				}
 			}
 		}
 	case f == 36: // deliberately invalid: bad nonce
